@@ -1,0 +1,73 @@
+//! Verification hooks (compiled only with `--cfg era_consensus_verif`).
+//! Scheduling points for exploring interleavings of real threads inside the crate's synchronous
+//! critical sections: a model checker installs a hook which decides, at every point, which
+//! thread continues. Without an installed hook everything here is a plain pass-through.
+#![allow(missing_docs, unreachable_pub, clippy::missing_docs_in_private_items)]
+use std::sync::{Arc, LockResult, MutexGuard, RwLock, TryLockError};
+
+/// What the calling thread is about to do.
+#[derive(Clone, Copy, Debug, PartialEq, Eq)]
+pub enum Event {
+    /// A scheduling point: the thread can continue.
+    Point,
+    /// The thread tried to take a lock which is held by another thread; it will retry.
+    WouldBlock,
+}
+
+type Hook = Arc<dyn Fn(Event) + Send + Sync>;
+
+static HOOK: RwLock<Option<Hook>> = RwLock::new(None);
+
+/// Installs the hook (process wide).
+pub fn install_thread_hook(h: Hook) {
+    *HOOK.write().unwrap() = Some(h);
+}
+
+/// Removes the hook.
+pub fn uninstall_thread_hook() {
+    *HOOK.write().unwrap() = None;
+}
+
+fn hook() -> Option<Hook> {
+    HOOK.read().unwrap().clone()
+}
+
+/// A scheduling point.
+pub fn point() {
+    if let Some(h) = hook() {
+        h(Event::Point);
+    }
+}
+
+/// Reports that the calling thread cannot make progress until another thread has.
+pub fn would_block() {
+    if let Some(h) = hook() {
+        h(Event::WouldBlock);
+    }
+}
+
+/// `std::sync::Mutex` with a scheduling point before every acquisition. With a hook installed a
+/// contended acquisition never blocks in the operating system: the thread reports `WouldBlock`
+/// and retries, so that the scheduler can run the lock holder.
+#[derive(Debug, Default)]
+pub struct Mutex<T>(std::sync::Mutex<T>);
+
+impl<T> Mutex<T> {
+    pub fn new(v: T) -> Self {
+        Self(std::sync::Mutex::new(v))
+    }
+
+    pub fn lock(&self) -> LockResult<MutexGuard<'_, T>> {
+        let Some(h) = hook() else {
+            return self.0.lock();
+        };
+        loop {
+            h(Event::Point);
+            match self.0.try_lock() {
+                Ok(g) => return Ok(g),
+                Err(TryLockError::Poisoned(p)) => return Err(p),
+                Err(TryLockError::WouldBlock) => h(Event::WouldBlock),
+            }
+        }
+    }
+}
